@@ -394,6 +394,11 @@ func (b *Books) derive(seed int, ks string, upTo int) []derivedOut {
 	if len(cur) >= upTo {
 		return cur
 	}
+	if upTo > len(cur)+1_000_000 {
+		// a counter that jumped ahead by more than a million (a wrapped uint32 subtraction): reported, not followed
+		b.c.MonitorFail("C19", "C19/counter/absurd-jump", fmt.Sprintf("a counter of keyset %s jumped from at most %d to %d", b.ksName(ks), len(cur), upTo), b.replay())
+		return cur
+	}
 	path, err := nut13KeysetPath(s.master, ks)
 	if err != nil {
 		return cur
@@ -798,6 +803,9 @@ func (b *Books) snap(w *bWallet) wSnap {
 			s.counters[b.ksName(k.Id)] = k.Counter
 			s.countersById[k.Id] = k.Counter
 			if old, ok := b.seeds[w.seed].maxCtr[k.Id]; !ok || int(k.Counter) > old {
+				if b.absurdCounter(k.Id, old, k.Counter, w.name) {
+					continue
+				}
 				b.seeds[w.seed].maxCtr[k.Id] = int(k.Counter)
 			}
 		}
@@ -1033,6 +1041,17 @@ func (b *Books) dleqStored(w *bWallet, bucket string, each func(func(cashu.Proof
 	})
 }
 
+// absurdCounter: a stored counter that jumped ahead by more than a million in one step (no operation derives that many
+// outputs; a uint32 subtraction that wrapped does).  Funds derived from there on would lie where no restore ever scans;
+// reported, and the harness does not follow the counter (it would derive billions of outputs).
+func (b *Books) absurdCounter(ks string, old int, now uint32, who string) bool {
+	if int64(now) <= int64(old)+1_000_000 {
+		return false
+	}
+	b.c.MonitorFail("C19", "C19/counter/absurd-jump", fmt.Sprintf("%s: the stored counter of keyset %s jumped from %d to %d", who, b.ksName(ks), old, now), b.replay())
+	return true
+}
+
 func sumPending(s wSnap) uint64 {
 	var t uint64
 	for _, p := range s.pendSecrets {
@@ -1099,6 +1118,7 @@ type restoreResult struct {
 	amount             uint64
 	err                error
 	spendable, pending uint64
+	both               uint64 // value held in the spendable AND the pending bucket
 	counters           map[string]uint32
 }
 
@@ -1123,8 +1143,15 @@ func (b *Books) RunRestore(seed int, name string, mints []string) restoreResult 
 		return res
 	}
 	res.spendable = db.GetProofs().Amount()
+	spendSecrets := map[string]bool{}
+	for _, p := range db.GetProofs() {
+		spendSecrets[p.Secret] = true
+	}
 	for _, p := range db.GetPendingProofs() {
 		res.pending += p.Amount
+		if spendSecrets[p.Secret] {
+			res.both += p.Amount
+		}
 	}
 	for _, mk := range db.GetKeysets() {
 		for _, k := range mk {
@@ -1155,6 +1182,9 @@ func (b *Books) CheckRestore(seed int, label string, keep bool) restoreResult {
 	}
 	for ks, ctr := range res.counters {
 		if old, ok := b.seeds[seed].maxCtr[ks]; !ok || int(ctr) > old {
+			if b.absurdCounter(ks, old, ctr, "restore "+label) {
+				continue
+			}
 			b.seeds[seed].maxCtr[ks] = int(ctr)
 		}
 	}
@@ -1183,6 +1213,13 @@ func (b *Books) CheckRestore(seed int, label string, keep bool) restoreResult {
 		if int(ctr) >= ms+1+300 {
 			b.c.MonitorFail("C19", "C19/restore/cumulative-counter", fmt.Sprintf("restored counter of %s is %d although the last signed counter is %d: the wallet continues %d counters further on, a later Restore meets three empty batches before them and stops (%s)", b.ksName(ks), ctr, ms, int(ctr)-ms-1, label), b.replay())
 		}
+	}
+	// C17 for the restored wallet: its balance is what is UNSPENT at the mint, what is locked in an in-flight melt is
+	// pending and only pending
+	if res.both > 0 {
+		b.c.MonitorFail("C17", "C17/restore/spendable-and-pending", fmt.Sprintf("the restored wallet holds %d sat of proofs in BOTH the spendable and the pending bucket (%s)", res.both, label), b.replay())
+	} else if res.spendable+res.pending == t.unspent+t.pending && res.spendable != t.unspent {
+		b.c.MonitorFail("C17", "C17/restore/balance-not-unspent", fmt.Sprintf("the restored wallet reports a balance of %d and %d pending; at the mint %d sat of this seed's outputs are unspent and %d pending (%s)", res.spendable, res.pending, t.unspent, t.pending, label), b.replay())
 	}
 	if res.spendable+res.pending != t.unspent+t.pending {
 		sig := "C19/restore/incomplete"
